@@ -1193,6 +1193,10 @@ def net_long_signature(b0, content):
 def extra_synth_specs(assets):
     """synthetic files that are not about a cap: very long / deeply nested .NET signatures"""
     S = []
+    for a in assets:
+        if a[0].endswith("/pe/signed/rsa_sha256.exe") or a[0].endswith("/pe/signed/ec_p256_sha256.exe"):
+            nm = os.path.basename(a[0]).split(".")[0]
+            S.append(("pe_issuer_cycle_" + nm, (lambda b=a[1]: pe_with_issuer_cycle(b)), "pe", "", 2))
     base = [a for a in assets if a[0].endswith("/dotnet/types.exe")]
     if base:
         b0 = base[0][1]
@@ -1546,3 +1550,203 @@ def version_string_sweep(b):
             if 0 <= v <= 0xFFFF:
                 yield ("%s@%#x.key-without-NUL,wLength=%d" % (kind, off, v),
                        [{"op": "set", "off": nul, "hex": "4100"}, {"op": "set", "off": off, "hex": enc(v, 2, False)}])
+
+
+# ------------------------------------------------------------------------------------------------ DER surgery
+def der_tlv(b, o):
+    tag, l, h = b[o], b[o + 1], 2
+    if l & 0x80:
+        n = l & 0x7f
+        l = int.from_bytes(b[o + 2:o + 2 + n], "big")
+        h = 2 + n
+    return tag, h, l
+
+
+def der_len(n):
+    if n < 0x80:
+        return bytes([n])
+    x = n.to_bytes((n.bit_length() + 7) // 8, "big")
+    return bytes([0x80 | len(x)]) + x
+
+
+def der_replace(b, off, repl):
+    """Re-encode the TLV at `off` with the spans of `repl` ({(offset, length): new bytes}, each an entire TLV) replaced,
+    fixing the lengths of every enclosing constructed TLV."""
+    tag, h, l = der_tlv(b, off)
+    if (off, h + l) in repl:
+        return repl[(off, h + l)]
+    if not any(off <= o and o + n <= off + h + l for (o, n) in repl):
+        return bytes(b[off:off + h + l])
+    out, p = bytearray(), off + h
+    while p < off + h + l:
+        _, h2, l2 = der_tlv(b, p)
+        out += der_replace(b, p, repl)
+        p += h2 + l2
+    return bytes([tag]) + der_len(len(out)) + bytes(out)
+
+
+def x509_names(b, version_off):
+    """(issuer span, subject span) of the TBSCertificate whose `[0] version` element starts at version_off"""
+    p = version_off
+    spans = []
+    for i in range(6):
+        _, h, l = der_tlv(b, p)
+        spans.append((p, h + l))
+        p += h + l
+    return spans[3], spans[5]
+
+
+def pe_with_issuer_cycle(signed):
+    """From a signed asset whose PKCS#7 holds a self-signed CA and a leaf issued by it: the two certificates are made to
+    name each other as issuer (leaf.subject := N2, CA.issuer := N2, where N2 is the CA name with its last byte changed),
+    none is self-signed any more.  DER lengths, WIN_CERTIFICATE length and the security directory are re-encoded."""
+    b = bytearray(signed)
+    nt = u32(b, 0x3c)
+    opt = nt + 24
+    dd = opt + (112 if u16(b, opt) == 0x20b else 96)
+    coff = u32(b, dd + 32)
+    clen = u32(b, coff)
+    pat = bytes.fromhex("a003020102")
+    offs, i = [], b.find(pat, coff)
+    while 0 <= i < coff + clen:
+        offs.append(i)
+        i = b.find(pat, i + 1)
+    certs = [x509_names(b, o) for o in offs]
+    ca = [c for c in certs if b[c[0][0]:c[0][0] + c[0][1]] == b[c[1][0]:c[1][0] + c[1][1]]][0]
+    leaf = [c for c in certs if c is not ca][0]
+    n1 = bytes(b[ca[1][0]:ca[1][0] + ca[1][1]])
+    n2 = n1[:-1] + bytes([n1[-1] ^ 1])
+    root = coff + 8
+    new = der_replace(b, root, {ca[0]: n2, leaf[1]: n2})
+    entry = struct.pack("<IHH", 8 + len(new), u16(b, coff + 4), u16(b, coff + 6)) + new
+    entry += bytes((-len(entry)) % 8)
+    out = bytes(b[:coff]) + entry
+    out = bytearray(out)
+    struct.pack_into("<II", out, dd + 32, coff, len(entry))
+    return bytes(out)
+
+
+# ------------------------------------------------------------------------------------------------ dex class data
+def uleb128(v):
+    out = bytearray()
+    while True:
+        byte = v & 0x7f
+        v >>= 7
+        if v:
+            out.append(byte | 0x80)
+        else:
+            out.append(byte)
+            return bytes(out)
+
+
+def read_uleb128(b, o):
+    v, s = 0, 0
+    while o < len(b):
+        x = b[o]
+        o += 1
+        v |= (x & 0x7f) << s
+        s += 7
+        if not x & 0x80:
+            break
+    return v, o
+
+
+def dex_class_data(lists):
+    """class_data_item from lists = [static fields, instance fields, direct methods, virtual methods]; a field is
+    (idx_diff, access_flags), a method (idx_diff, access_flags, code_off)"""
+    out = bytearray()
+    for l in lists:
+        out += uleb128(len(l))
+    for l in lists:
+        for e in l:
+            for v in e:
+                out += uleb128(v)
+    return bytes(out)
+
+
+def dex_minimal(class_data_items):
+    """a dex file with a header, one class_def per item and the items (no ids): the smallest file the dex module
+    parses down to the class data"""
+    n = len(class_data_items)
+    hs = 0x70
+    defs = hs
+    data = defs + 32 * n
+    body = bytearray()
+    offs = []
+    for it in class_data_items:
+        offs.append(data + len(body))
+        body += it + bytes(4)
+    mem = bytearray(data) + body + bytes(8)
+    mem[0:8] = b"dex\n035\0"
+    struct.pack_into("<III", mem, 32, len(mem), hs, 0x12345678)
+    struct.pack_into("<II", mem, 96, n, defs)
+    struct.pack_into("<II", mem, 104, len(mem) - hs, hs)
+    for i, o in enumerate(offs):
+        struct.pack_into("<I", mem, defs + 32 * i + 24, o)
+    return bytes(mem)
+
+
+DEX_EXTREMES = [0, 1, 0x7f, 0x80, (1 << 32) - 1, 1 << 32, (1 << 63) - 1, 1 << 63, (1 << 64) - 2, (1 << 64) - 1]
+
+
+def dex_class_data_family(real_dex=None):
+    """Directed family for class_data_item lists: in each of the four lists, two or three CONSECUTIVE entries whose
+    uleb128 index differences are every pair of extremes (their sums cross 2^32, 2^63 and 2^64), extreme access flags
+    and code offsets, counts larger than the entries present, over-long uleb128s; on a synthetic minimal dex and —
+    re-encoded at the end of the file, class_data_off re-pointed — on every class of the real dex sample.
+    Yields (what, bytes)."""
+    E = DEX_EXTREMES
+    for li, lname in enumerate(["static_fields", "instance_fields", "direct_methods", "virtual_methods"]):
+        meth = li >= 2
+        for a in E:
+            for c in E:
+                ents = [(a, 1), (c, 2), (1, 4)] if not meth else [(a, 1, 0), (c, 2, 0), (1, 4, 0)]
+                lists = [[], [], [], []]
+                lists[li] = ents
+                yield ("dex %s diffs %#x,%#x,1" % (lname, a, c), dex_minimal([dex_class_data(lists)]))
+        for v in E:
+            lists = [[], [], [], []]
+            lists[li] = [(1, v), (1, v)] if not meth else [(1, v, v), (1, 1, v), (2, v, 0x70)]
+            yield ("dex %s flags/code_off %#x" % (lname, v), dex_minimal([dex_class_data(lists)]))
+    # every list populated at once, index continuing / resetting between lists
+    for a in E:
+        lists = [[(a, 1), (1, 1)], [(a, 1), (1, 1)], [(a, 1, 0), (1, 1, 0)], [(a, 1, 0), (1, 1, 0)]]
+        yield ("dex all lists diffs %#x,1" % a, dex_minimal([dex_class_data(lists), dex_class_data(lists)]))
+    # counts larger than the data, over-long uleb128
+    for cnt in (3, 0x7f, 0xffff, (1 << 32) - 1, (1 << 64) - 1):
+        item = uleb128(cnt) * 4 + uleb128(1) * 6
+        yield ("dex counts %#x" % cnt, dex_minimal([item]))
+    yield ("dex over-long uleb128", dex_minimal([bytes([2, 0, 0, 0]) + b"\xff" * 11 + b"\x01" + bytes([1, 1, 2])]))
+    if real_dex is not None and real_dex[:4] == b"dex\n":
+        b = real_dex
+        n, off = u32(b, 0x60), u32(b, 0x64)
+        for i in range(min(n, 8)):
+            cdo = u32(b, off + 32 * i + 24)
+            if not cdo or cdo >= len(b):
+                continue
+            p = cdo
+            counts = []
+            for _ in range(4):
+                v, p = read_uleb128(b, p)
+                counts.append(min(v, 64))
+            lists = []
+            for li, cnt in enumerate(counts):
+                l = []
+                for _ in range(cnt):
+                    e = []
+                    for _ in range(3 if li >= 2 else 2):
+                        v, p = read_uleb128(b, p)
+                        e.append(v)
+                    l.append(tuple(e))
+                lists.append(l)
+            for li in range(4):
+                if len(lists[li]) < 2:
+                    continue
+                for a, c in [((1 << 64) - 1, 1), ((1 << 63), (1 << 63)), ((1 << 32) - 1, 1), ((1 << 64) - 1, (1 << 64) - 1), (0, 0)]:
+                    new = [list(l) for l in lists]
+                    new[li][0] = (a,) + tuple(new[li][0][1:])
+                    new[li][1] = (c,) + tuple(new[li][1][1:])
+                    nb = bytearray(b) + dex_class_data(new) + bytes(8)
+                    struct.pack_into("<I", nb, off + 32 * i + 24, len(b))
+                    struct.pack_into("<I", nb, 32, len(nb))
+                    yield ("dex sample class %d list %d diffs %#x,%#x" % (i, li, a, c), bytes(nb))
